@@ -7,6 +7,7 @@ package transport
 // start states.
 
 import (
+	"bytes"
 	"fmt"
 	"strings"
 	"testing"
@@ -440,6 +441,119 @@ func c05BitProbe(c *choice.Ctx, rep *report.R, tcp bool) {
 	rep.State("bits|" + desc)
 }
 
+// c05Siblings: a long run over two connections of one transport (MaxConcurrentQuery 1, always one exchange in flight, so that the
+// exchanges alternate between two live connections): more than 65536 exchanges in total, fewer than 65536 on either
+// connection. A wire id never shows up twice on the same connection.
+func c05Siblings(rep *report.R, tcp bool, total int) {
+	network := "udp"
+	if tcp {
+		network = "tcp"
+	}
+	desc := fmt.Sprintf("tcp=%v %d exchanges alternating over two connections", tcp, total)
+	fail := func(sig, msg string) {
+		rep.Violate("C05:siblings:"+sig, msg+"\n  "+desc, map[string]any{"Choices": []int{}, "Scenario": "siblings"})
+	}
+	d := env.NewDialer(network)
+	tr := NewPipelineTransport(PipelineOpts{DialContext: d.Dial, IsTCP: tcp, IdleTimeout: time.Hour, MaxConcurrentQuery: 1})
+	var all []*call
+	defer abandon(tr, d, &all)
+	seen := map[int]map[uint16]bool{}
+	decodeNewest := func(ci int) *refdns.Msg {
+		w := d.ImplEnd(ci).LastWrite()
+		if tcp {
+			if len(w) < 2 {
+				return nil
+			}
+			w = w[2:]
+		}
+		m, err := refdns.Decode(w)
+		if err != nil {
+			return nil
+		}
+		return m
+	}
+	answer := func(ci int, m *refdns.Msg) {
+		b := env.Answer(m, 1, 60).Encode(false)
+		if tcp {
+			b = refdns.Frame(b)
+		}
+		d.ImplEnd(ci).Inject(b)
+	}
+	noteID := func(ci int) bool {
+		w := d.ImplEnd(ci).LastWrite()
+		if tcp && len(w) >= 2 {
+			w = w[2:]
+		}
+		if len(w) < 2 {
+			return true
+		}
+		id := uint16(w[0])<<8 | uint16(w[1])
+		if seen[ci] == nil {
+			seen[ci] = map[uint16]bool{}
+		}
+		if seen[ci][id] {
+			fail("wire-id-reused", fmt.Sprintf("wire id %d appears a second time on connection %d after %d exchanges on the transport (%d ids used on this connection so far)", id, ci, len(seen[0])+len(seen[1])+len(seen[2]), len(seen[ci])))
+			return false
+		}
+		seen[ci][id] = true
+		return true
+	}
+	var prev *call
+	var prevMsg *refdns.Msg
+	prevConn := -1
+	for i := 0; i < total; i++ {
+		cl := newCall(i, 0)
+		cl.name = refdns.N(fmt.Sprintf("s%d", i), "test")
+		cl.wire = refdns.Query(cl.id, cl.name, refdns.TypeA, 1).Encode(false)
+		all = append(all, cl)
+		cl.start(tr, 30*time.Second)
+		wait()
+		// which connection carries it: the one whose newest write is this query
+		conn := -1
+		for ci := d.NumConns() - 1; ci >= 0; ci-- {
+			if w := d.ImplEnd(ci).LastWrite(); w != nil && bytes.Contains(w, []byte(fmt.Sprintf("\x02s%d\x04test", i))) || bytes.Contains(d.ImplEnd(ci).LastWrite(), []byte(fmt.Sprintf("s%d\x04test", i))) {
+				conn = ci
+				break
+			}
+		}
+		if conn >= 0 && !noteID(conn) {
+			return
+		}
+		var msg *refdns.Msg
+		if conn >= 0 {
+			msg = decodeNewest(conn)
+		}
+		if prev != nil {
+			if prevMsg == nil {
+				fail("setup", fmt.Sprintf("exchange %d cannot be answered", i-1))
+				return
+			}
+			answer(prevConn, prevMsg)
+			wait()
+			if !prev.done || prev.resp == nil {
+				fail("exchange-failed", fmt.Sprintf("exchange %d against a healthy server failed: %s", i-1, prev))
+				return
+			}
+		}
+		prev, prevConn, prevMsg = cl, conn, msg
+		if conn < 0 {
+			fail("setup", fmt.Sprintf("query %d is on no connection", i))
+			return
+		}
+		if len(all) > 8 {
+			all = all[len(all)-4:] // finished exchanges need no teardown
+		}
+		if i%1024 == 0 {
+			for ci := 0; ci < d.NumConns(); ci++ {
+				d.ImplEnd(ci).TakeWritten() // keep the recorded writes short (LastWrite of an idle connection is then empty, which is fine)
+			}
+			report.Progress()
+		}
+	}
+	rep.Eval(desc)
+	rep.Count("siblings_connections", int64(d.NumConns()))
+}
+
 func TestVerifC05(t *testing.T) {
 	rep := report.New("C05 pipeline demultiplexing")
 	defer rep.Write()
@@ -449,7 +563,7 @@ func TestVerifC05(t *testing.T) {
 	rep.Rule = fmt.Sprintf("E3: real PipelineTransport (TCP and UDP framing) over scripted dialer/peer in a synctest bubble; %d exchanges; events {start (in index order), reply to any received frame in any order, duplicate reply, "+
 		"cancel, unsolicited reply, server FIN, reply and FIN in the same instant, stalled write + commit, early reply for the id of a write still in progress + FIN, advance 2s (= every deadline)}; all event orders to depth %d with <=%d fault events (cancel/dup/unsolicited/FIN); id counter start states {0, 65533, 65534, 65535}; on UDP also with one exchange whose query exceeds the datagram size (EMSGSIZE on write) among 3-4 exchanges; "+
 		"oracle after every event: returned message was sent by the server for that exchange's own frame, caller id restored, no reply used twice, wire ids distinct per connection, no (nil,nil), ownership audit; "+
-		"plus id-bit probes: two exchanges in flight whose wire ids are {0,255,256,1024} apart from start ids {0,255,4096,65530}; for each and every bit position a well-formed reply whose id differs in exactly that bit must complete nobody, then each gets its own reply; "+
+		"plus id-bit probes: two exchanges in flight whose wire ids are {0,255,256,1024} apart from start ids {0,255,4096,65530}; for each and every bit position a well-formed reply whose id differs in exactly that bit must complete nobody, then each gets its own reply; plus a run of 66136 exchanges alternating over two live connections of one transport (MaxConcurrentQuery 1): no wire id twice on one connection; "+
 		"distinct = distinct (event sequence => outcomes); states = distinct outcome vectors", nCalls, depth, bound)
 	type cfg struct {
 		tcp      bool
@@ -462,6 +576,10 @@ func TestVerifC05(t *testing.T) {
 	if rp := report.ReplayFile(); rp != nil {
 		var x struct{ Scenario string }
 		rp.Decode(&x)
+		if x.Scenario == "siblings" {
+			bubble(t, func() { hmu.Lock(); c05Siblings(rep, true, 65536+600); hmu.Unlock() })
+			return
+		}
 		if x.Scenario == "bits" {
 			for _, tcp := range []bool{true, false} {
 				tcp := tcp
@@ -486,6 +604,14 @@ func TestVerifC05(t *testing.T) {
 			tcp := tcp
 			st := runExplore(t, rep, -1, func(c *choice.Ctx) { c05BitProbe(c, rep, tcp) })
 			rep.Count(fmt.Sprintf("exec_id_bits_tcp=%v", tcp), st.Executions)
+		}
+		if sh, _ := report.Shard(); sh == 0 {
+			hmu.Lock()
+			c05Siblings(rep, true, 65536+600)
+			if report.Thorough() {
+				c05Siblings(rep, false, 2*65536+600)
+			}
+			hmu.Unlock()
 		}
 	})
 	rep.Sample(map[string]any{"events": "start0,start1,reply2(c0,id1),cancel0,reply1(c0,id0),start2,dup1", "outcomes": "err(context canceled),ok(serial 2),inflight"})
